@@ -70,6 +70,7 @@ func TestC02(t *testing.T) {
 		cases = append(cases, mon.CaseSpec{Name: "single-peer", Spec: spec{Kind: "single", Proto: []string{"pair", "pair1", "xpair"}[i%3], Msgs: 10 + rnd.Intn(20), WQ: 128, RQ: 128}})
 	}
 	for i := 0; i < n/4; i++ {
+		cases = append(cases, mon.CaseSpec{Name: "burst-idle", Spec: spec{Kind: "burst", Proto: []string{"push", "xpush", "pair", "xpair"}[i%4], Peers: 1 + rnd.Intn(3), Senders: 2 + rnd.Intn(3), Msgs: 200 + rnd.Intn(300), WQ: []int{2, 8, 128}[rnd.Intn(3)], Procs: procs[rnd.Intn(3)]}})
 		cases = append(cases, mon.CaseSpec{Name: "latejoin", Spec: spec{Kind: "latejoin", Proto: []string{"push", "xpush"}[i%2], Peers: 1 + rnd.Intn(3), WQ: []int{1, 2, 4, 128}[rnd.Intn(4)], Msgs: 3 + rnd.Intn(6)}})
 		cases = append(cases, mon.CaseSpec{Name: "race-connect", Spec: spec{Kind: "race", Proto: []string{"pair", "pair1", "xpair", "xpair1"}[i%4], Msgs: 150 + rnd.Intn(150), Procs: procs[rnd.Intn(3)], Yield: rnd.Intn(2) == 0}})
 	}
@@ -94,6 +95,8 @@ func TestC02(t *testing.T) {
 			runSingle(c, sp)
 		case "latejoin":
 			runLateJoin(c, sp)
+		case "burst":
+			runBurst(c, sp)
 		case "race":
 			runRace(c, sp)
 		}
@@ -939,4 +942,82 @@ func runRace(c *mon.Case, sp spec) {
 	c.Count("race_rounds", sp.Msgs)
 	c.Nontrivial()
 	c.Sig("race|%s|%d", sp.Proto, sp.Procs)
+}
+
+// runBurst: an idle socket (peers connected and ready, nothing queued) is hit by several Sends at
+// the same instant, again and again.  Every accepted message must reach a peer without any further
+// Send having to come along and kick the scheduler.
+func runBurst(c *mon.Case, sp spec) {
+	s := hx.MustSock(c, sp.Proto)
+	setQ(c, s, sp.WQ, 128)
+	name := hx.Uniq("c02b")
+	L := vt.L(name)
+	c.Cleanup(func() { vt.Forget(name) })
+	if err := s.Listen(vt.Addr(name)); err != nil {
+		c.Inconclusive("setup: %v", err)
+		return
+	}
+	w := hx.WatchPipes(s)
+	npeers := sp.Peers
+	if sp.Proto == "pair" || sp.Proto == "xpair" {
+		npeers = 1
+	}
+	var peers []*vt.Pipe
+	for i := 0; i < npeers; i++ {
+		peers = append(peers, L.Connect())
+		if !hx.WaitAttached(c, w, i+1, "vt peer") {
+			return
+		}
+	}
+	nonce := hx.Uniq("n")
+	delivered := func() int {
+		n := 0
+		for _, p := range peers {
+			n += p.SentCount()
+		}
+		return n
+	}
+	sent := 0
+	for round := 0; round < sp.Msgs && !c.Failed(); round++ {
+		start := make(chan struct{})
+		var wg sync.WaitGroup
+		for g := 0; g < sp.Senders; g++ {
+			g := g
+			wg.Add(1)
+			go func() {
+				defer wg.Done()
+				<-start
+				if err := s.Send(payload(nonce, 0, g, round)); err != nil && !c.Failed() {
+					c.Violate("push/send-error", "Send on an idle socket with ready peers returned %v", err)
+				}
+			}()
+		}
+		close(start)
+		k := mon.Go("senders", func() (interface{}, error) { wg.Wait(); return nil, nil })
+		if !c.AwaitOrViolate("push/send-stuck:idle-burst", fmt.Sprintf("%d simultaneous Sends on an idle %s socket with %d ready peers (round %d)", sp.Senders, sp.Proto, npeers, round), k.Done, mon.AwaitOpts{}) {
+			return
+		}
+		sent += sp.Senders
+		want := sent
+		if !c.AwaitOrViolate("push/accepted-message-not-delivered:idle-burst", fmt.Sprintf("all %d messages accepted so far reaching a peer (round %d: %d simultaneous Sends on an idle %s socket)", want, round, sp.Senders, sp.Proto), func() bool { return delivered() >= want }, mon.AwaitOpts{}) {
+			return
+		}
+	}
+	// exactly once over the union
+	seen := map[key]bool{}
+	for pi, p := range peers {
+		for _, x := range p.SentLog() {
+			_, g, q, ok := parse(nonce, x.Body)
+			k := key{0, g, q}
+			if !ok || seen[k] {
+				c.Violate("queue/delivered-twice:burst", "peer %d got %q (never sent, or a second time)", pi, x.Body)
+				return
+			}
+			seen[k] = true
+		}
+	}
+	c.Count("messages", len(seen))
+	c.Count("idle_bursts", sp.Msgs)
+	c.Nontrivial()
+	c.Sig("burst|%s|%d|%d|%d", sp.Proto, npeers, sp.Senders, sp.WQ)
 }
